@@ -151,6 +151,7 @@ struct Case {
   std::map<std::string, long> classes;
   std::string sample; // free text appended to the sample record
   bool replayMode = false;
+  std::string phase; // harness-set context, appended to deadlock/livelock signatures ("livelock@pool-dtor")
   // set of known-finding signatures passed by the driver (failures matching them are counted,
   // not reported; generators may also avoid those regions)
   std::vector<std::string> known;
@@ -187,6 +188,13 @@ enum Flags {
 
 struct Opts {
   std::string tier = "quick";
+  std::vector<std::string> known; // known-finding signatures: generators exclude those regions by construction
+  bool isKnown(const std::string& s) const {
+    for (auto& k : known)
+      if (k == s)
+        return true;
+    return false;
+  }
   bool thorough() const {
     return tier == "thorough";
   }
